@@ -81,10 +81,13 @@ ImplSetContent(s, b) == [s EXCEPT !.content = b, !.length = Len(b), !.orc = NoOr
 
 ImplSetPlain(s, b) == [Plain(s) EXCEPT !.content = b, !.length = Len(b), !.orc = NoOracle]
 
-\* c = what the deflate compressor returned for s.content (its inflation is s.content: orc)
-ImplCompress(s, c) ==
+\* c = what the deflate compressor returned for s.content (its inflation is s.content: orc).
+\* A DecodeParms entry left over on a filter-less stream is dropped when the filter is added
+\* (fix: e6ae879); devStale = TRUE re-creates the repaired defect compress.stale-decodeparms (entry kept).
+ImplCompress(s, c, devStale) ==
     IF s.filters = <<>> /\ Len(c) + 19 < Len(s.content)
-    THEN [s EXCEPT !.filters = <<Flate>>, !.content = c, !.length = Len(c), !.orc = [has |-> TRUE, data |-> s.content]]
+    THEN LET t == IF devStale THEN s ELSE [s EXCEPT !.form = "none", !.parms = <<>>]
+         IN [t EXCEPT !.filters = <<Flate>>, !.content = c, !.length = Len(c), !.orc = [has |-> TRUE, data |-> s.content]]
     ELSE s
 
 ImplView(s, devAvg, devArr, devNul) == ImplDecodeO(s.content, Chain(s), s.form, s.orc, devAvg, devArr, devNul)
@@ -96,12 +99,16 @@ ImplDecompress(s, devAvg, devArr, devNul) ==
        ELSE s
 
 \* Document::compress honours allows_compression, Stream::compress does not
-ImplDocCompress(ss, cs) == [i \in 1..Len(ss) |-> IF ss[i].allows THEN ImplCompress(ss[i], cs[i]) ELSE ss[i]]
+ImplDocCompress(ss, cs, devStale) == [i \in 1..Len(ss) |-> IF ss[i].allows THEN ImplCompress(ss[i], cs[i], devStale) ELSE ss[i]]
 ImplDocDecompress(ss, devAvg, devArr, devNul) == [i \in 1..Len(ss) |-> ImplDecompress(ss[i], devAvg, devArr, devNul)]
 
 -----------------------------------------------------------------------------
-(* Classes of input on which the code as it is deviates (narrow signatures of the known      *)
-(* findings, DESIGN 2.9).  s is the state the operation (or query) starts from.               *)
+(* Classes of input on which the code deviated before the fix: commits (narrow signatures of  *)
+(* the findings png.avg, decodeparms.array, compress.stale-decodeparms, DESIGN 2.9; all        *)
+(* repaired, none is a known finding any more).  They only name a regression: a call that      *)
+(* breaks the contract on an input of class k exactly as the old defect did gets the verdict k  *)
+(* (reported as a VIOLATION with that signature).  s is the state the operation (or query)      *)
+(* starts from.                                                                                *)
 
 \* data handed to the predictor of the first stage
 PredictorInput(s) ==
